@@ -72,6 +72,42 @@ verus! {
 //@end
 //@lift feos-core/src/state/properties.rs State::helmholtz_energy
 //@end
+// ---- caloric and volumetric combinations (C01: "and for the caloric properties derived from them")
+//@lift feos-core/src/state/residual_properties.rs State::compressibility
+//@end
+//@lift feos-core/src/state/residual_properties.rs State::dp_drho
+//@end
+//@lift feos-core/src/state/residual_properties.rs State::d2p_drho2
+//@end
+//@lift feos-core/src/state/residual_properties.rs State::isothermal_compressibility
+//@end
+//@lift feos-core/src/state/residual_properties.rs State::residual_molar_isochoric_heat_capacity
+//@end
+//@lift feos-core/src/state/residual_properties.rs State::residual_molar_isobaric_heat_capacity
+//@end
+//@lift feos-core/src/state/residual_properties.rs State::residual_enthalpy
+//@end
+//@lift feos-core/src/state/residual_properties.rs State::residual_internal_energy
+//@end
+//@lift feos-core/src/state/residual_properties.rs State::residual_gibbs_energy
+//@end
+//@lift feos-core/src/state/properties.rs State::molar_isochoric_heat_capacity
+//@end
+//@lift feos-core/src/state/properties.rs State::molar_isobaric_heat_capacity
+//@end
+//@lift feos-core/src/state/properties.rs State::enthalpy
+//@end
+//@lift feos-core/src/state/properties.rs State::internal_energy
+//@end
+//@lift feos-core/src/state/properties.rs State::gibbs_energy
+//@end
+//@lift feos-core/src/state/properties.rs State::joule_thomson
+//@end
+//@lift feos-core/src/state/properties.rs State::isentropic_compressibility
+//@end
+//@lift feos-core/src/state/properties.rs State::thermal_expansivity
+//@end
+
 // ---- entropy scaling (C20.1): the model's correlation / reference functions are uninterpreted
 //@lextern viscosity_reference(L_Eos, real, real, RArr) -> Result<real, LErr>
 //@lextern viscosity_correlation(L_Eos, real, RArr) -> Result<real, LErr>
@@ -199,6 +235,35 @@ pub proof fn contract_c01_4_key_and_sign(s: L_State, i: int, j: int)
     assumed_c10_2(s, Third(DT));
     assumed_c10_2(s, Zeroth);
 }
+
+// ---- C01 (caloric properties): the textbook relations between the caloric / volumetric properties and the
+// primitive derivatives (c_v = T/N (dS/dT)_V,  c_p = T/N [(dS/dT)_V - (dp/dT)^2/(dp/dV)],  kappa_T = -1/(V dp/dV),
+// mu_JT = -(V + T (dp/dT)/(dp/dV)) / (N c_p),  H = TS + A + pV, ...), for every selector where one is taken.
+pub proof fn contract_c01_caloric(s: L_State, c: Contributions)
+    ensures ({
+        let (t, v, n, rho) = (s.temperature, s.volume, s.total_moles, s.density);
+        let tot = Contributions::Total;
+        &&& molar_isochoric_heat_capacity(s, c) == t * ds_dt(s, c) / n
+        &&& (!(c is Residual) ==> molar_isobaric_heat_capacity(s, c) == (t / n) * (ds_dt(s, c) - (dp_dt(s, c) * dp_dt(s, c)) / dp_dv(s, c)))
+        &&& molar_isobaric_heat_capacity(s, Contributions::Residual) == residual_molar_isobaric_heat_capacity(s)
+        &&& residual_molar_isochoric_heat_capacity(s) == t * ds_res_dt(s) / n
+        &&& residual_molar_isobaric_heat_capacity(s) == (t / n) * (ds_res_dt(s) - (dp_dt(s, tot) * dp_dt(s, tot)) / dp_dv(s, tot)) - RGAS()
+        &&& isothermal_compressibility(s) == (-1real) / (dp_dv(s, tot) * v)
+        &&& joule_thomson(s) == (-(v + t * dp_dt(s, tot) / dp_dv(s, tot))) / (n * molar_isobaric_heat_capacity(s, tot))
+        &&& isentropic_compressibility(s) == (-molar_isochoric_heat_capacity(s, tot)) / (molar_isobaric_heat_capacity(s, tot) * dp_dv(s, tot) * v)
+        &&& thermal_expansivity(s) == (-dp_dt(s, tot)) / dp_dv(s, tot) / v
+        &&& enthalpy(s, c) == t * entropy(s, c) + helmholtz_energy(s, c) + pressure(s, c) * v
+        &&& internal_energy(s, c) == t * entropy(s, c) + helmholtz_energy(s, c)
+        &&& gibbs_energy(s, c) == pressure(s, c) * v + helmholtz_energy(s, c)
+        &&& residual_enthalpy(s) == t * residual_entropy(s) + residual_helmholtz_energy(s) + pressure(s, Contributions::Residual) * v
+        &&& residual_internal_energy(s) == t * residual_entropy(s) + residual_helmholtz_energy(s)
+        &&& residual_gibbs_energy(s) == pressure(s, Contributions::Residual) * v + residual_helmholtz_energy(s)
+                - n * RGAS() * t * rln(compressibility(s, tot))
+        &&& compressibility(s, c) == pressure(s, c) / (rho * t * RGAS())
+        &&& dp_drho(s, c) == (-v) / rho * dp_dv(s, c)
+        &&& d2p_drho2(s, c) == v / (rho * rho) * (v * d2p_dv2(s, c) + 2real * dp_dv(s, c))
+    })
+{}
 
 // ---- C03.2: well-formedness of a constructed state
 pub open spec fn wf(s: L_State) -> bool {
